@@ -10,6 +10,7 @@
 //	applied TX ...            block applied: generator.onNewBlock removes each included tx
 //	reverted TX:V:P ...       block reverted: generator.onDeleteBlock adds each tx back
 //	snapshot
+//	reorgx / annx / addx      operations interleaved into another operation's lock-free window: interleave.go
 //
 // Every op prints its result and the canonical dump of the three indexes. Every call into the pool
 // runs under a watchdog; a call that does not return is the output `hang` and the pool is abandoned.
@@ -130,16 +131,26 @@ type scriptABI struct {
 	mu      sync.Mutex
 	verdict map[string]int32 // by tx id; default ok
 	last    map[string]int32 // last answer given per tx id
+	gate    *gate            // installed by reorgx / annx / addx (interleave.go): holds or hooks the call
 }
 
 func (a *scriptABI) VerifyTransaction(req *labi.VerifyTransactionRequest) (*labi.VerifyTransactionResponse, error) {
 	a.mu.Lock()
-	defer a.mu.Unlock()
 	v, ok := a.verdict[string(req.Transaction.ID)]
 	if !ok {
 		v = labi.TxVerifyResultOk
 	}
+	g := a.gate
+	a.mu.Unlock()
+	if g != nil {
+		// the answer is fixed; the call returns when the operations interleaved here are done
+		if g.enter(req.Transaction) {
+			return &labi.VerifyTransactionResponse{Result: v}, nil
+		}
+	}
+	a.mu.Lock()
 	a.last[string(req.Transaction.ID)] = v
+	a.mu.Unlock()
 	return &labi.VerifyTransactionResponse{Result: v}, nil
 }
 
@@ -150,15 +161,24 @@ func (a *scriptABI) script(m map[string]int32) {
 }
 
 type scriptConn struct {
-	mu   sync.Mutex
-	fail bool
+	mu       sync.Mutex
+	fail     bool
+	gate     *gate            // installed by addx (interleave.go)
+	announce p2p.EventHandler // the pool's handler for announced transactions, as registered by Init
 }
+
+func (c *scriptConn) handler() p2p.EventHandler { c.mu.Lock(); defer c.mu.Unlock(); return c.announce }
 
 func (c *scriptConn) Broadcast(ctx context.Context, event string, data []byte) error { return nil }
 func (c *scriptConn) RegisterRPCHandler(endpoint string, handler p2p.RPCHandler, opts ...p2p.RPCHandlerOption) error {
 	return nil
 }
 func (c *scriptConn) RegisterEventHandler(name string, handler p2p.EventHandler, validator p2p.Validator) error {
+	if name == txpool.RPCEventPostTransactionAnnouncement {
+		c.mu.Lock()
+		c.announce = handler
+		c.mu.Unlock()
+	}
 	return nil
 }
 func (c *scriptConn) ApplyPenalty(pid p2p.PeerID, score int) {}
@@ -167,8 +187,12 @@ func (c *scriptConn) RequestFrom(ctx context.Context, peerID p2p.PeerID, procedu
 }
 func (c *scriptConn) Publish(ctx context.Context, topicName string, data []byte) error {
 	c.mu.Lock()
-	defer c.mu.Unlock()
-	if c.fail {
+	fail, g := c.fail, c.gate
+	c.mu.Unlock()
+	if g != nil {
+		g.publishing()
+	}
+	if fail {
 		return fmt.Errorf("publish failed")
 	}
 	return nil
@@ -744,6 +768,12 @@ func (r *runner) step(op string) string {
 		return out
 	case "snapshot":
 		return r.finish("ok", false)
+	case "reorgx":
+		return r.reorgx(w)
+	case "annx":
+		return r.annx(w)
+	case "addx":
+		return r.addx(w)
 	}
 	return "bad-op"
 }
@@ -823,7 +853,20 @@ func (prop) Classify(c corr.Case, out []string) string {
 		if n < 0 {
 			continue
 		}
+		if (kind == "reorgx" || kind == "annx" || kind == "addx") && strings.Contains(op, " | ") {
+			// operations executed inside another operation's window; `hit` = one of them changed the pool
+			head := strings.Fields(o)[0]
+			if strings.Contains(head[strings.Index(head, ":")+1:], "t") {
+				kinds["interleaved-hit"] = true
+			} else {
+				kinds["interleaved"] = true
+			}
+		}
 		switch kind {
+		case "reorgx":
+			if n < prev {
+				kinds["drop-invalid"] = true
+			}
 		case "add":
 			if strings.HasPrefix(o, "true") {
 				if prev >= maxTx {
@@ -1021,8 +1064,21 @@ func (g *gen) randomCase(tag string) corr.Case {
 				ops = append(ops, "remove "+g.mk(9, 9, 1, 0, false).String())
 				g.tokens = g.tokens[:len(g.tokens)-1]
 			}
-		case r < 86:
+		case r < 80:
 			ops = append(ops, g.reorgOp())
+		case r < 86:
+			switch x := rng.Intn(10); {
+			case x < 7:
+				ops = append(ops, g.reorgxOp(minDiff, smallPrio, pOK))
+			case x < 9:
+				ops = append(ops, "annx "+g.newAdd(minDiff, smallPrio, pOK)+g.innerOps(2, minDiff, smallPrio, pOK))
+			default:
+				if tag != "large" {
+					ops = append(ops, "addx "+g.newAdd(minDiff, smallPrio, pOK)+" "+[]string{"v", "p"}[rng.Intn(2)]+g.innerOps(2, minDiff, smallPrio, pOK))
+				} else {
+					ops = append(ops, g.reorgxOp(minDiff, smallPrio, pOK))
+				}
+			}
 		case r < 91:
 			op := "applied"
 			for i := rng.Intn(4); i > 0; i-- {
@@ -1116,6 +1172,15 @@ func (prop) Generate(rng *rand.Rand, tier string) []corr.Case {
 		corr.Case{Tag: "regress-replace-stale", Ops: []string{"reset 2 2 10 0", "add 1.0.1000.125.1:o:1", "add 1.0.5000.125.2:o:1", "add 2.0.9000.125.3:o:1", "add 3.0.99000.125.4:o:1", "snapshot"}},
 		corr.Case{Tag: "regress-sender-limit", Ops: []string{"reset 5 1 10 0", "add 1.5.1000.125.1:o:1", "add 1.2.5000.125.2:o:1", "remove 1.5.1000.125.1", "snapshot"}},
 		corr.Case{Tag: "regress-fee-overflow", Ops: []string{"reset 3 3 10 0", "add 1.0.18446744073709551615.134.1:o:1", "add 1.0.100.125.2:o:1", "snapshot"}},
+		// a replacement inside the processable run while the next batch is being verified: the stale batch
+		// must be abandoned (fix C14-promote-stale-batch), else the processable set becomes 0,3,4
+		corr.Case{Tag: "regress-window-gap", Ops: []string{"reset 8 8 10 0", "add 1.0.1000.125.1:o:1", "add 1.1.1000.125.2:o:1", "add 1.2.1000.125.3:o:1", "reorg", "add 1.3.1000.125.4:o:1", "add 1.4.1000.125.5:o:1", "reorgx | add 1.1.5000.125.6:o:1", "reorg", "snapshot"}},
+		// the pool is full and a better paying sender evicts the MIDDLE of a batch that is being verified: the rest
+		// of the batch must not be promoted behind the hole
+		corr.Case{Tag: "regress-window-evict-middle", Ops: []string{"reset 4 8 1 0", "add 1.0.5000.125.1:o:1", "add 1.1.5000.125.2:o:1", "add 1.2.1000.125.3:o:1", "add 1.3.5000.125.4:o:1", "reorgx | add 2.0.9000.125.5:o:1", "reorg", "snapshot"}},
+		// nonce 1 turns invalid, nonce 2 is replaced while the round verifies: the dropped suffix is the OLD 1,2
+		corr.Case{Tag: "regress-window-replace-in-suffix", Ops: []string{"reset 8 8 1 0", "add 1.0.5000.125.1:o:1", "add 1.1.5000.125.2:o:1", "add 1.2.5000.125.3:o:1", "add 2.0.5000.125.4:o:1", "reorgx 1.1.5000.125.2:i | add 1.2.9000.125.5:o:1", "reorg", "remove 1.0.5000.125.1", "remove 1.2.9000.125.5", "remove 2.0.5000.125.4", "snapshot"}},
+		corr.Case{Tag: "regress-window-orphan", Ops: []string{"reset 8 8 10 0", "add 1.0.1000.125.1:o:1", "reorgx | remove 1.0.1000.125.1 | add 1.0.1000.125.1:o:1", "reorg", "snapshot"}},
 		corr.Case{Tag: "regress-full", Ops: []string{"reset 1 1 1 0", "add 1.0.1000.125.1:o:1", "add 2.0.5000.125.2:o:1", "add 3.0.9000.125.3:o:1", "reorg", "add 1.0.99000.125.4:p:1", "snapshot"}},
 	)
 	for len(cases) < n {
@@ -1128,9 +1193,11 @@ func (prop) Generate(rng *rand.Rand, tier string) []corr.Case {
 			cases = append(cases, g.randomCase("persender"))
 		case r < 75:
 			cases = append(cases, g.randomCase("promotion"))
-		case r < 88:
+		case r < 80:
 			cases = append(cases, g.promotionScript())
-		case r < 93:
+		case r < 90:
+			cases = append(cases, g.interleaveScript())
+		case r < 94:
 			cases = append(cases, g.overflowScript())
 		default:
 			cases = append(cases, g.randomCase("large"))
